@@ -99,6 +99,7 @@ class UpdaterWorld(World):
             return {"config": cfg, "ops": ops}
         cfg["bound"] = rc.choice([None, None] + HALF + FULL)
         cfg["sides"] = rc.choice(["both", "both", "upper", "lower"])
+        cfg["sides_bias"] = stream(seed, "sides_bias").choice(["both", "upper", "lower"])     # each parameter's accumulator has its own half bounds
         cfg["on_limit"] = cfg["bound"] in ("sharp", "f_sharp") and stream(seed, "onlimit").random() < 0.5
         cfg["start"] = rc.choice(["inside", "inside", "outside"]) if cfg["bound"] in (None, "mult", "sharp", "f_mult", "f_sharp") else "inside"
         numel = int(np.prod(shape))
@@ -188,20 +189,21 @@ class UpdaterWorld(World):
                 acc = getattr(par.updater, p)
                 if b in half:
                     fu, fl, kw = half[b]
-                    if sides in ("both", "upper"):
+                    sd = cfg.get("sides_bias", sides) if p == "bias" else sides
+                    if sd in ("both", "upper"):
                         acc.upperbound(fu, hi, **kw)
-                    if sides in ("both", "lower"):
+                    if sd in ("both", "lower"):
                         acc.lowerbound(fl, lo, **kw)
                 else:
                     ff, kw = full[b]
                     acc.fullbound(ff, hi, lo, **kw)
         return not reg.waived
 
-    def _expected(self, cfg, old, pos, neg):
+    def _expected(self, cfg, old, pos, neg, p="weight"):
         """old + ub(reduce(pos)) - lb(reduce(neg)) in float64; pos / neg are reduced arrays or None."""
         b = cfg["bound"]
         lo, hi, power = cfg["lo"], cfg["hi"], cfg["power"]
-        sides = cfg.get("sides", "both") if b in HALF else "both"
+        sides = (cfg.get("sides_bias", cfg.get("sides", "both")) if p == "bias" else cfg.get("sides", "both")) if b in HALF else "both"
         if pos is None and neg is None:
             return None
         z = np.zeros_like(old)
@@ -293,7 +295,7 @@ class UpdaterWorld(World):
             any_pending = False
             for p in params:
                 pos, neg = reduced(p, "pos"), reduced(p, "neg")
-                want = self._expected(cfg, olds[p], pos, neg)
+                want = self._expected(cfg, olds[p], pos, neg, p)
                 got = _np(getattr(par, p))
                 ctx.judged += 1
                 if want is None:
